@@ -19,6 +19,8 @@ def build(job, E):
             tasks.append(E.EnvLeaf(k=k))
         elif kind == 'cached':
             tasks.append(E.EnvCached(k=k, deps=deps))
+        elif kind == 'count':
+            tasks.append(E.EnvCount(k=k, deps=deps))
         else:
             tasks.append(E.EnvSub(k=k, keys=tuple(job['keys'][k]), deps=deps))
     return tasks
